@@ -72,14 +72,18 @@ def chunked(it: Iterable[Any], size: int) -> Iterator[List[Any]]:
 
 
 _WORKER: Optional[Callable[[Any, Result], None]] = None
-_INIT_DONE = False
+_ATTRIBUTE: Optional[Callable[[Dict[str, Any], Dict[str, Any]], bool]] = None
+_KNOWN: List[Dict[str, Any]] = []
 
 
 def _init_worker(worker_path: Tuple[str, str], scratch: str) -> None:
-    global _WORKER  # pylint: disable=global-statement
+    global _WORKER, _ATTRIBUTE, _KNOWN  # pylint: disable=global-statement
     os.environ["TEALER_ROOT_OUTPUT_DIR"] = os.path.join(scratch, f"out-{os.getpid()}")
     mod = __import__(worker_path[0], fromlist=[worker_path[1]])
     _WORKER = getattr(mod, worker_path[1])
+    _ATTRIBUTE = getattr(mod, "attribute", None)
+    prop = getattr(mod, "PROP", None)
+    _KNOWN = [k for k in load_known_findings() if k.get("property") == prop and k.get("status") == "known"]
     init = getattr(mod, "worker_init", None)
     if init is not None:
         init()
@@ -89,8 +93,35 @@ def _run_chunk(chunk: List[Any]) -> Result:
     res = Result()
     assert _WORKER is not None
     for item in chunk:
+        n0 = len(res.violations)
         try:
             _WORKER(item, res)
+            if len(res.violations) > n0:
+                # one violation per (kind, place) and item
+                new, seen_keys = [], set()
+                for v in res.violations[n0:]:
+                    d = v.get("detail", {})
+                    key = (v["kind"], d.get("block"), d.get("field"), d.get("detector"), d.get("line"))
+                    if key not in seen_keys:
+                        seen_keys.add(key)
+                        new.append(v)
+                del res.violations[n0:]
+                res.violations.extend(new)
+            if _ATTRIBUTE is not None and _KNOWN and len(res.violations) > n0:
+                # attribute to known findings right here, so that known cases can never crowd
+                # a different violation out of the (bounded) list that is sent to the parent
+                new = res.violations[n0:]
+                del res.violations[n0:]
+                for v in new:
+                    hit = None
+                    for k in _KNOWN:
+                        if v["kind"] in k.get("kinds", [k.get("kind")]) and _ATTRIBUTE(k, v):
+                            hit = k
+                            break
+                    if hit is not None:
+                        res.count("known:" + hit["id"])
+                    else:
+                        res.violations.append(v)
         except Exception:  # pylint: disable=broad-except
             res.errors.append(
                 "harness error on item %r\n%s" % (item if len(repr(item)) < 2000 else "...", traceback.format_exc())
@@ -176,13 +207,17 @@ def finish(  # pylint: disable=too-many-arguments,too-many-locals,too-many-branc
         hit = None
         if attribute is not None:
             for k in known:
-                if k.get("kind") == v["kind"] and attribute(k, v):
+                if v["kind"] in k.get("kinds", [k.get("kind")]) and attribute(k, v):
                     hit = k
                     break
         if hit is not None:
             matched[hit["id"]] = matched.get(hit["id"], 0) + 1
         else:
             unattributed.append(v)
+    for k in known:
+        n_worker = total.counters.get("known:" + k["id"], 0)
+        if n_worker:
+            matched[k["id"]] = matched.get(k["id"], 0) + n_worker
     for k in known:
         if k["id"] in matched:
             print(f"KNOWN-FINDING: property={prop} {k['id']}: {k['what']} ({matched[k['id']]} cases attributed)")
